@@ -266,6 +266,48 @@ Proof.
   unfold rune_match. rewrite H. cbn. now rewrite orb_true_r.
 Qed.
 
+(* ------------------------------------------------------------------ what an unanchored search does not see
+   A starred item at either end of a concatenation -- `.*foo`, `foo.*`, any `r*` -- never changes the ANSWER of an unanchored
+   search: the star may match nothing and the search may begin / stop where it pleases. (This is all a normalisation in front
+   of the fast-path selection may rely on; an anchor between the star and the end of the pattern takes it away: see
+   anchored_any_is_not_containment below Matcher.searchb.) *)
+Lemma mseq_app l rs1 rs2 i k :
+  mseq l (rs1 ++ rs2) i k <-> exists j, mseq l rs1 i j /\ mseq l rs2 j k.
+Proof.
+  revert i. induction rs1 as [|r rs1 IH]; intros i; cbn [app].
+  - split.
+    + intros H. exists i. split; [|exact H]. constructor. pose proof (mseq_bounds _ _ _ _ H). lia.
+    + intros (j & H1 & H2). inversion H1; subst. exact H2.
+  - split.
+    + intros H. inversion H as [|? ? ? j ? Hr Hs]; subst. apply IH in Hs. destruct Hs as (j' & Ha & Hb).
+      exists j'. split; [|exact Hb]. econstructor; eassumption.
+    + intros (j & H1 & H2). inversion H1 as [|? ? ? j0 ? Hr Hs]; subst.
+      econstructor; [exact Hr|]. apply IH. exists j. auto.
+Qed.
+
+Lemma search_drop_leading_star r rs l :
+  search (Concat (Star r :: rs)) l <-> search (Concat rs) l.
+Proof.
+  unfold search. split.
+  - intros (i & j & H). inversion H as [| | | | | | | | | | | | | | | | | |? ? ? Hs|]; subst.
+    inversion Hs as [|? ? ? k ? _ Hs1]; subst. exists k, j. constructor. exact Hs1.
+  - intros (i & j & H). inversion H as [| | | | | | | | | | | | | | | | | |? ? ? Hs|]; subst.
+    exists i, j. constructor. econstructor; [|exact Hs]. apply m_star_nil.
+    pose proof (mseq_bounds _ _ _ _ Hs). lia.
+Qed.
+
+Lemma search_drop_trailing_star r rs l :
+  search (Concat (rs ++ [Star r])) l <-> search (Concat rs) l.
+Proof.
+  unfold search. split.
+  - intros (i & j & H). inversion H as [| | | | | | | | | | | | | | | | | |? ? ? Hs|]; subst.
+    apply mseq_app in Hs. destruct Hs as (k & H1 & _). exists i, k. constructor. exact H1.
+  - intros (i & j & H). inversion H as [| | | | | | | | | | | | | | | | | |? ? ? Hs|]; subst.
+    exists i, j. constructor. apply mseq_app. exists j. split; [exact Hs|].
+    pose proof (mseq_bounds _ _ _ _ Hs) as [_ Hb].
+    econstructor; [apply m_star_nil; exact Hb|]. constructor. exact Hb.
+Qed.
+
 End Semantics.
 
 (* ------------------------------------------------------------------ capture groups (ruleguard/utils.go) *)
